@@ -38,6 +38,13 @@ def gen(rng, tier):
             c['b'][1] = -1
         c['seed'] = rng.randrange(10 ** 6)
         out.append(c)
+    # derived operators: sums whose first summand hands its input through (IdentityOp() + A + B, its .H, scaled, composed) - "every linear
+    # operator", and the input tensors are used again after the call (added after round-5 seeded change C02-e2)
+    import random as _random
+    from props import C01
+    for k, t in enumerate(C01.gen_tree(_random.Random(0), 'quick')[:10]):
+        t.update({'a': [2, 1], 'b': [-1, 3], 'seed': 1000 + k, 'complex': True})
+        out.append(t)
     return out
 
 
